@@ -1,11 +1,13 @@
 ID = "C15"
 LEVEL = "other"
-CONTRACT_MODULES = ["contracts.optimize", "contracts.matrixutils"]
+CONTRACT_MODULES = ["contracts.optimize_state", "contracts.optimize", "contracts.matrixutils"]
 FUNCTIONS = ["Optimize.step@take-best-block", "Optimize.step@start-row-block", "Optimize.reload@restore-block", "Optimize.step@self-calls",
              "Optimize.reload@self-calls", "Optimize.add_point_to_log@self-calls", "Optimize.tag@self-calls", "Optimize.clear_log@self-calls"]
 # every method of Optimize that touches self._log, directly or through self-calls (read off the real class on every run)
 from contracts.optimize import LOG_METHODS as _LM      # noqa: E402
 FUNCTIONS += [f"Optimize.{m}@log-aligned" for m in _LM]
+# which knobs / targets take part in an evaluation is read off the CURRENT active flags on every access
+FUNCTIONS += ["MeritFunctionForMatch.mask_input", "MeritFunctionForMatch.mask_output"]
 RAC = "rac/c15.py"
 RAC_BUDGET = {"quick": 60, "thorough": 900}
 RAC_MIN = {"quick": 160, "thorough": 160}      # fewer run-time evaluations than this = the harness skipped its work: checker broken, not "held"
